@@ -155,6 +155,7 @@ structure DState where
   env : Env := []
   rootName : Str := b "prog"
   floats : List Str := []
+  lowers : List (Str × Str) := []     -- graph of strings.ToLower where it is not ASCII lowering
   script : List DefOp := []
   prog : Option (Except DefErr BState) := none
   parsed : Option ParseOut := none
@@ -162,7 +163,7 @@ structure DState where
 
 def DState.ext (d : DState) : Ext := {
   floatOk := fun s => d.floats.contains s
-  toLower := asciiLower
+  toLower := fun s => match lookup s d.lowers with | some l => l | none => asciiLower s
   valueFn := valueFnFixed
   argFn := argFnFixed
   hdrName := d.hdr.getD 0 []
@@ -210,6 +211,13 @@ def handleLine (d : DState) (line : String) : DState × Option String :=
     | none => (d, some "bad-op")
   | "fok" :: l => match l.mapM unhex with
     | some l => ({ d with floats := d.floats ++ l }, none)
+    | none => (d, some "bad-op")
+  | "low" :: l => match l.mapM unhex with
+    | some l =>
+      let rec pairs : List Str → List (Str × Str)
+        | k :: v :: r => (k, v) :: pairs r
+        | _ => []
+      ({ d with lowers := d.lowers ++ pairs l }, none)
     | none => (d, some "bad-op")
   | ["isopt", m, t] => match parseMode m, unhex t with
     | some m, some t =>
